@@ -8,11 +8,11 @@ import (
 	"net"
 	"net/http"
 	"os"
-	"path/filepath"
 	"sort"
 	"strconv"
 	"strings"
 	"sync"
+	"sync/atomic"
 
 	"github.com/aws/aws-sdk-go/aws"
 	"github.com/aws/aws-sdk-go/aws/awserr"
@@ -25,6 +25,8 @@ import (
 	"github.com/uber/kraken/lib/backend/shadowbackend"
 	"github.com/uber/kraken/lib/backend/sqlbackend"
 	"github.com/uber/kraken/lib/backend/testfs"
+	klog "github.com/uber/kraken/utils/log"
+	"go.uber.org/zap"
 	"verifharness/hlib"
 )
 
@@ -249,7 +251,7 @@ func c37serve(h http.Handler) (string, func()) {
 	return l.Addr().String(), func() { srv.Close() }
 }
 
-var c37dbSeq int
+var c37dbSeq int64
 
 func c37must(err error) {
 	if err != nil {
@@ -266,10 +268,9 @@ func c37newEnv(ctx *hlib.Ctx, cfg c37cfg) *c37env {
 		return testfs.Config{Addr: addr, Root: cfg.fsRoot, NamePath: "identity"}
 	}
 	mkSQL := func() sqlbackend.Config {
-		c37dbSeq++
-		p := filepath.Join(ctx.Tmp, fmt.Sprintf("c37_%d.db", c37dbSeq))
-		e.cleanup = append(e.cleanup, func() { os.Remove(p) })
-		return sqlbackend.Config{Dialect: "sqlite3", ConnectionString: p}
+		seq := atomic.AddInt64(&c37dbSeq, 1)
+		// one shared in-memory database per case (all connections of the case see the same tables)
+		return sqlbackend.Config{Dialect: "sqlite3", ConnectionString: fmt.Sprintf("file:c37_%d_%d?mode=memory&cache=shared", os.Getpid(), seq)}
 	}
 	mkS3 := func() backend.Client {
 		e.fake = &fakeS3{objs: map[string][]byte{}}
@@ -568,10 +569,23 @@ func c37gen(r *hlib.Rng, cfg c37cfg, n int, pctGood int) []c37op {
 }
 
 func c37(ctx *hlib.Ctx) {
+	klog.SetGlobalLogger(zap.NewNop().Sugar())
 	r := hlib.NewRng(ctx.Seed)
 	sqlZero := c37probeZero(ctx)
-	emit := func(cfg c37cfg, ops []c37op, kind string) {
-		outs, read, nt := c37run(ctx, cfg, ops)
+	// cases are generated sequentially (one PRNG), executed on a worker pool (every case has its own
+	// server / database / bucket), and emitted in generation order
+	type job struct {
+		cfg  c37cfg
+		ops  []c37op
+		kind string
+		outs []string
+		read []interface{}
+		nt   bool
+	}
+	var jobs []*job
+	emit := func(cfg c37cfg, ops []c37op, kind string) { jobs = append(jobs, &job{cfg: cfg, ops: ops, kind: kind}) }
+	write := func(j *job) {
+		cfg, ops, kind, outs, read, nt := j.cfg, j.ops, j.kind, j.outs, j.read, j.nt
 		bk := "(Single " + c37ekName[cfg.a] + ")"
 		name := c37ekName[cfg.a]
 		if cfg.shadow {
@@ -591,6 +605,28 @@ func c37(ctx *hlib.Ctx) {
 		ctx.Emit(hlib.Case{Coq: coq, NT: nt, Kind: name + "/" + kind, Hist: hist,
 			Sample: map[string]interface{}{"backend": name, "fs_root": cfg.fsRoot, "s3_root": cfg.s3Root,
 				"list_max_keys": cfg.listMax, "sql_zero_assign_skipped": sqlZero, "ops": jops, "observed": read}})
+	}
+	flush := func() {
+		var wg sync.WaitGroup
+		ch := make(chan *job)
+		for w := 0; w < 8; w++ {
+			wg.Add(1)
+			go func() {
+				defer wg.Done()
+				for j := range ch {
+					j.outs, j.read, j.nt = c37run(ctx, j.cfg, j.ops)
+				}
+			}()
+		}
+		for _, j := range jobs {
+			ch <- j
+		}
+		close(ch)
+		wg.Wait()
+		for _, j := range jobs {
+			write(j)
+		}
+		jobs = nil
 	}
 	up := func(n, c string) c37op { return c37op{k: 0, n: n, c: []byte(c)} }
 	dl := func(n string) c37op { return c37op{k: 1, n: n} }
@@ -681,4 +717,5 @@ func c37(ctx *hlib.Ctx) {
 		}
 		emit(cfg, c37gen(r, cfg, r.Range(3, 18), pct), kind)
 	}
+	flush()
 }
